@@ -2,20 +2,41 @@
 
 Lean: Verif/C04/{Model,Lemmas,Theorems}.lean — keyed memoisation over the package DAG
 (`subrunner.do`: key = H(serialise inputs), lookup all sub-entries, else analyse and write;
-`computeHash`; post-filter by Checks), `cache_inv`, `warm_eq_cold`, `checks_not_in_key_ok`,
-and the generated-facts obligation `key_covers_inputs` over Verif/C04/Generated.lean.
+`computeHash`; what `linter.lint` loads) in which the key and the analysis are functions of
+NAMED inputs: the key hashes `restrict Shape.cfgHashed cfg` / `restrict Shape.envHashed env`,
+the analysis sees `restrict Shape.cfgReads cfg` / `restrict Shape.envReads env`.
+`warm_eq_cold(_post)` is proved from the structural obligation `Shape.Covers` (reads ⊆ hashed);
+`uncovered_input_breaks` shows the obligation is necessary.
 
-Tie X (run time, no hook): every warm run of the real `staticcheck` binary sets
+Tie G (regenerated, kernel-checked): Verif/C04/Generated.lean is rewritten on every run from
+ * the source (harness/cmd/c04extract, go/ast): fields of config.Config, the fields reaching
+   the `cfg` component of subrunner.do, the fields read through config.For(pass).F, the
+   environment variables hashed / read by analysis-time packages, the Fprintf tags of
+   subrunner.do and computeHash;
+ * the run-time HASH lines: tags written, configuration fields ever printed with a non-zero
+   value, environment variables printed;
+and `gen_covers`, `gen_runtime_covers`, `gen_reads_are_fields`, `key_covers_inputs`,
+`pkg_key_covers_inputs`, `src_key_covers_inputs` are re-proved by `decide`.
+
+Tie X (run time, no hook): every sequential warm run of the real `staticcheck` binary sets
 GODEBUG=gocachehash=1 (+ GOMAXPROCS=1 so that the blocks of HASH lines do not interleave);
 the HASH[staticcheck …]/HASH[package …]/HASH subkey lines are parsed into the components of
-every action key, the hit/miss pattern and the served content digests; the model replays the
-whole history (driver op `hist`) and must predict the same hit/miss pattern, the same key
-equalities, the same `vetout` components and the same served digests.  The observed tag list
-is written to Generated.lean and `key_covers_inputs` is re-proved by the kernel.
+every action key (the cfg component into named fields), the hit/miss pattern and the served
+content digests; the model replays the whole history (driver op `hist`, with the regenerated
+shape) and must predict the same hit/miss pattern, the same key equalities, the same `vetout`
+components and the same served digests.
+
+Witnesses (corpus/C04/histories.json): one history per named input that flips that input
+alone and REQUIRES the action key to change through the named component (`expect`), so a
+component kept by tag but made constant/coarser is reported even without an output witness.
 
 Oracle (the property itself, on the real binary): at every step of every history the
 `-f json` output (parsed, paths relative, sorted) + exit status of the run that shares the
 history's persistent STATICCHECK_CACHE equals that of the same invocation on a fresh cache.
+Work is cut by fixed COUNTS (N_GENERATED, N_PARALLEL), never by a wall-clock box.
+
+Development aids (not used by the contract): VERIF_C04_PREWARM=<dir> keeps the prewarmed
+standard-library facts between runs; VERIF_C04_ONLY=<names> runs only those corpus histories.
 """
 import ast as pyast
 import copy
@@ -81,7 +102,7 @@ GOMOD_VALUES = ["1.21", "1.7"]
 APP_BITS = 12
 DEP_FACTS = {"dep": ["helper_depr", "pure", "direct_nonnil"], "leaf": ["old_depr", "calc_pure", "get_nonnil"]}
 OP_KINDS = ["edit_target", "flip_dep_fact", "conf", "go", "tags", "tests", "checks", "goos", "goarch", "gomod", "http",
-            "break", "godebug", "pattern", "revert", "touch"]
+            "break", "godebug", "pattern", "setenv", "revert", "touch"]
 PATTERNS = ["./...", "./app", "./lib/..."]
 SHORT = {"app": MODPATH + "/app", "dep": MODPATH + "/lib/dep", "leaf": MODPATH + "/lib/dep/leaf", "srv": MODPATH + "/srv"}
 
@@ -95,6 +116,7 @@ def base_state():
         "conf": {l: None for l in LEVELS},
         "go": None, "tags": None, "tests": False, "checks": "all", "goos": "linux", "godebug": None,
         "goarch": "amd64", "gomod": "1.21", "http": False, "broken": None, "pattern": "./...",
+        "setenv": {},
     }
 
 
@@ -226,6 +248,12 @@ def apply_op(states, op):
         st[k] = op["value"]
     elif k == "break":
         st["broken"] = op["value"]
+    elif k == "setenv":
+        st["setenv"] = dict(st.get("setenv") or {})
+        if op["value"] is None:
+            st["setenv"].pop(op["name"], None)
+        else:
+            st["setenv"][op["name"]] = op["value"]
     elif k == "revert":
         st = copy.deepcopy(states[op["to"]])
     elif k == "touch":
@@ -335,6 +363,8 @@ def run_sc(sc, st, cwd, cache, procs):
     env = vlib.go_env({"STATICCHECK_CACHE": cache, "GODEBUG": godebug, "GOOS": st["goos"], "GOARCH": st.get("goarch", "amd64")})
     if procs:
         env["GOMAXPROCS"] = str(procs)
+    for k, v in (st.get("setenv") or {}).items():
+        env[k] = v
     rc, so, se = vlib.run(invocation(sc, st), cwd=cwd, env=env, timeout=1800)
     return rc, so, se
 
@@ -1015,9 +1045,17 @@ def run(ctx):
             r = rng.fork("p%d" % i)
             par_hists.append(("p%d" % i, gen_history(r, 3 + r.below(4), full)))
     corpus = [] if (replay is not None and replay.get("ops")) else corpus_histories()
+    # violation search for an obligation that is about to fail: an environment variable that
+    # analysis-time code reads and the key does not hash gets its own targeted history
+    # (run; set it; run; other value; run; unset; run) through the oracle
+    for e in [x for x in src["envReads"] if x not in src["envHashed"] and re.match(r"^\w+$", x)][:3]:
+        ops = [{"kind": "init", "state": base_state()}]
+        for v in ["1", "FOO,ID,Id,Api,URL", None, "verif-x"]:
+            ops.append({"kind": "setenv", "name": e, "value": v})
+        corpus.append(("search_env_" + e, "env", ops))
     only = os.environ.get("VERIF_C04_ONLY")   # development aid: run the named corpus histories only
     if only:
-        corpus = [c for c in corpus if c[0] in only.split(",")]
+        corpus = [c for c in corpus if c[0] in only.split(",") or c[0].startswith("search_")]
         hists, par_hists = [], []
         ctx.notes.append("VERIF_C04_ONLY=%s: partial run" % only)
     combos = set()
@@ -1205,14 +1243,28 @@ def run(ctx):
 
 META = {
     "level": "proof",
-    "technique": "Lean 4 theorems over a model of the runner's keyed memoisation (cache invariant, warm = cold for all histories, Checks outside the key); "
-                 "run-time tie to the real binary through GODEBUG=gocachehash=1; differential warm/cold runs of the real binary over generated edit histories",
-    "text": "warm_eq_cold is proved for all histories of worlds and all package DAGs over the Lean model of subrunner.do/computeHash/lint's post-filter, "
-            "under the named hypotheses (sha256 injective, analysis a function of the key's inputs up to fact order). The model is tied to the code at run time: "
-            "the key components printed by the real binary are parsed, must cover the model's inputs (kernel-checked key_covers_inputs over regenerated facts) "
-            "and the model must reproduce hit/miss pattern, key equalities, vetout components and served digests of every history. The second hypothesis and the "
-            "property itself are evaluated directly: every step of every history compares the warm run with a cold run of the real binary.",
-    "note": "Trusted: Lean kernel; c04driver (compiled model); checks/c04.py (generator, parser of HASH lines, canonicalisation); Go toolchain build ids. "
-            "Outside: salt/analyzer-set changes (need another binary), inputs read by analyzers that nobody lists in the key (found only by the differential runs).",
+    "technique": "Lean 4 theorems over a model of the runner's keyed memoisation in which the key and the analysis are functions of NAMED inputs "
+                 "(cache invariant; warm = cold for all histories and any post-processing of the loaded results, from the structural obligation "
+                 "'every named input the analysis reads is hashed'; that obligation re-proved by the kernel for the shape extracted from the current "
+                 "source and from the run-time HASH lines; a counter-model shows it cannot be dropped); run-time tie to the real binary through "
+                 "GODEBUG=gocachehash=1; differential warm/cold runs of the real binary over targeted witness histories (one per named input, with "
+                 "required key changes) and generated edit histories (fixed counts)",
+    "text": "warm_eq_cold / warm_eq_cold_post are proved for all histories of worlds and all package DAGs over the Lean model of subrunner.do/computeHash and of what "
+            "linter.lint loads, under the hypotheses: sha256 injective, the analysis deterministic (up to fact order) in the inputs the model hands it, and the "
+            "structural obligation Shape.Covers (configuration fields read through config.For(pass) and environment variables read by analysis-time packages are "
+            "among those written into the key). Covers is not assumed for the code under test: go/ast extraction (harness/cmd/c04extract: fields of config.Config, "
+            "the fields reaching the cfg component of subrunner.do, config.For(pass).F readers, os.Getenv readers, Fprintf tags of do/computeHash) and the HASH "
+            "lines of the running binary regenerate Verif/C04/Generated.lean on every run, and gen_covers / gen_runtime_covers / src_key_covers_inputs / "
+            "key_covers_inputs are kernel-checked closed terms over it; warm_eq_cold_gen is transparency for that shape without the hypothesis; "
+            "uncovered_input_breaks exhibits a shape with a read-but-unhashed field where warm differs from cold. The model must reproduce hit/miss pattern, "
+            "key equalities, vetout components and served digests of every sequential history. The remaining hypothesis and the property itself are evaluated "
+            "directly: every step of every history compares the warm run with a cold run of the real binary; each corpus history flips one named input alone "
+            "(initialisms, dot_import_whitelist, http_status_code_whitelist, -go, go.mod go directive, GOOS, GOARCH, -tags, -tests, GODEBUG, package pattern, "
+            "direct/indirect dependency facts, comment-only directive edit, touch, revert, packages that fail to compile / to type-check and are repaired) "
+            "and REQUIRES the action key to follow through the named component.",
+    "note": "Trusted: Lean kernel; c04driver (compiled model); checks/c04.py (generator, parser of HASH lines, canonicalisation); harness/cmd/c04extract "
+            "(syntactic; unresolved uses count as reading everything); Go toolchain build ids. Outside: salt/analyzer-set changes (need another binary), inputs "
+            "read by analyzers that are neither configuration fields nor environment variables (files outside the package, time, …: found only by the "
+            "differential runs), the byte-level cache (C05), the scheduler (C06), lint.go's post-processing beyond 'a function of the loaded results' (C10).",
     "design_ref": "DESIGN.md section 5, C04",
 }
